@@ -1525,6 +1525,11 @@ func genCase(r *common.Rand) (*dag.Graph, []op) {
 	if r.Chance(1, 4) {
 		addHeldCluster(r, g)
 	}
+	if keepLiveDigests && r.Chance(1, 6) {
+		if cg, cops, ok := genUnindexedChain(r, g); ok {
+			return cg, cops
+		}
+	}
 	var pushable, manifests []int
 	for _, n := range g.Nodes {
 		if n.Foreign() {
@@ -1665,6 +1670,100 @@ func genCase(r *common.Rand) (*dag.Graph, []op) {
 		}
 	}
 	return g, ops
+}
+
+// genUnindexedChain: a referrer chain base <- mid <- ... <- tip of manifests in which an
+// INTERMEDIATE manifest is in blobs/ but has no entry in index.json (pushed through a handle with
+// AutoSaveIndex off that never saved, or dropped from the index by another tool), while the tip
+// is pushed - and so indexed - afterwards.  GC must follow the chain through the storage: the
+// tip's chain ends in a reachable manifest, so tip and the intermediate ones stay.
+func genUnindexedChain(r *common.Rand, g *dag.Graph) (*dag.Graph, []op, bool) {
+	var blobs, manifests []int
+	for _, n := range g.Nodes {
+		if n.Foreign() {
+			continue
+		}
+		if n.IsManifest() {
+			manifests = append(manifests, n.ID)
+		} else {
+			blobs = append(blobs, n.ID)
+		}
+	}
+	if len(manifests) == 0 || len(blobs) == 0 {
+		return nil, nil, false
+	}
+	base := common.Pick(r, manifests)
+	if g.Nodes[base].Desc.MediaType == "application/octet-stream" {
+		return nil, nil, false
+	}
+	length := 2 + r.Intn(3) // mids + tip
+	chain := []int{}
+	prev := base
+	for i := 0; i < length; i++ {
+		id := appendManifest(g, r.Chance(1, 4), prev, common.Pick(r, blobs), nil, "c")
+		chain = append(chain, id)
+		prev = id
+	}
+	tip := chain[len(chain)-1]
+	mids := chain[:len(chain)-1]
+	isChain := map[int]bool{}
+	for _, c := range chain {
+		isChain[c] = true
+	}
+	var ops []op
+	for _, n := range g.Nodes {
+		if n.Foreign() || isChain[n.ID] {
+			continue
+		}
+		ops = append(ops, op{K: 'P', N: n.ID})
+	}
+	// the base is tagged, or held by a tagged manifest that lists / refers to it, or (sometimes) not
+	// reachable at all: then the whole chain is garbage
+	switch r.Intn(6) {
+	case 0:
+	default:
+		ops = append(ops, op{K: 'T', N: base, T: r.Intn(nTags)})
+	}
+	switch r.Intn(3) {
+	case 0:
+		// the mids are pushed and then dropped from index.json by another tool
+		for _, m := range mids {
+			ops = append(ops, op{K: 'P', N: m})
+		}
+		ops = append(ops, op{K: 'F'})
+	case 1:
+		// the mids are pushed through a handle that never saves; a new handle pushes the tip
+		ops = append(ops, op{K: 'V', N: 0})
+		for _, m := range mids {
+			ops = append(ops, op{K: 'P', N: m})
+		}
+		ops = append(ops, op{K: 'R'})
+	default:
+		// only the first mid is unindexed
+		ops = append(ops, op{K: 'V', N: 0}, op{K: 'P', N: mids[0]}, op{K: 'R'})
+		for _, m := range mids[1:] {
+			ops = append(ops, op{K: 'P', N: m})
+		}
+	}
+	ops = append(ops, op{K: 'P', N: tip})
+	if r.Chance(1, 4) {
+		ops = append(ops, op{K: 'S', N: r.Intn(12)})
+	}
+	if r.Chance(1, 4) {
+		ops = append(ops, op{K: 'T', N: tip, T: r.Intn(nTags)}, op{K: 'U', T: r.Intn(nTags)})
+	}
+	if r.Chance(1, 5) {
+		ops = append(ops, op{K: 'A', N: r.Intn(2)}, op{K: 'D', N: common.Pick(r, chain)})
+	}
+	ops = append(ops, op{K: 'G'})
+	if r.Chance(1, 2) {
+		ops = append(ops, op{K: 'R'})
+		if r.Chance(1, 2) {
+			ops = append(ops, op{K: 'G'})
+		}
+	}
+	run.Count("template:unindexed-chain")
+	return g, ops, true
 }
 
 // appendManifest adds an image manifest (config = blob cfg) or an index (listing lists) with an
@@ -2005,6 +2104,7 @@ func coverageFloors(n int) {
 		"op:autosave": n / 20, "op:saveindex": n / 50, "op:push-undecodable": n / 20, "op:gc-blocked": n / 50, "op:delete-by-blob-descriptor": n / 20}
 	if keepLiveDigests {
 		need["op:reopen"] = n / 20
+		need["template:unindexed-chain"] = n / 12
 	}
 	if run.Thorough() {
 		need["exhaustive:cancel-points"] = 50
